@@ -353,5 +353,5 @@ def extra_coverage(tier):
                                       "single/unsorted-axes transforms for n in 1..20 (%d configurations, part 'lengths')" % len(sweep_configs())]}
 
 
-PARTS = [Part("wavelet", check_case, {"quick": 6000, "thorough": 100000}, strategy=st_case),
+PARTS = [Part("wavelet", check_case, {"quick": 12000, "thorough": 100000}, strategy=st_case),
          make_sweep("lengths", sweep_configs, check_case)]
